@@ -329,8 +329,10 @@ def privkey_cases(draw):
         # a valid key in a byte string of the wrong length: padded with a zero / sign / flag byte at either end, or with
         # its leading zero byte dropped (encodings other layers use for the same integer)
         k = draw(gen.scalars_valid()).to_bytes(32, "big")
-        how = draw(st.sampled_from(["00+k", "0000+k", "k+00", "k+01", "01+k", "strip"]))
-        body = {"00+k": b"\x00" + k, "0000+k": b"\x00\x00" + k, "k+00": k + b"\x00", "k+01": k + b"\x01", "01+k": b"\x01" + k, "strip": k.lstrip(b"\x00")[:31]}[how]
+        how = draw(st.sampled_from(["00+k", "0000+k", "k+00", "k+01", "01+k", "strip", "k+lf", "k+crlf", "k+cr", "k+lflflf", "sp+k", "k+sp"]))
+        body = {"00+k": b"\x00" + k, "0000+k": b"\x00\x00" + k, "k+00": k + b"\x00", "k+01": k + b"\x01", "01+k": b"\x01" + k, "strip": k.lstrip(b"\x00")[:31],
+                # what reading a raw key from a file or pipe leaves around it
+                "k+lf": k + b"\n", "k+crlf": k + b"\r\n", "k+cr": k + b"\r", "k+lflflf": k + b"\n\n\n", "sp+k": b" " + k, "k+sp": k + b" "}[how]
         if len(body) == 32:
             body = body[1:]
         return {"key": body.hex()}
